@@ -213,26 +213,35 @@ def check(ctx: Ctx) -> None:
     # ---------------- R5 delimiter dispatch
     it = proj.func('parsers._iter_rows_with_delimiter')
     ifl = get_flow(proj, it)
-    arms = {'regex': None, 'char': None, 'default': None}
-    for s in ifl.cfg.stmts():
-        if isinstance(s, ast.If):
-            t = src(s.test).replace(' ', '')
-            if "startswith('regex:')" in t:
-                arms['regex'] = s.body
-            elif 'len(delimiter)==1' in t:
-                arms['char'] = s.body
-                arms['default'] = s.orelse
-    tab = any(isinstance(s, ast.If) and "delimiter=='tab'" in src(s.test).replace(' ', '') and any("'\\t'" in src(x) for x in s.body) for s in ifl.cfg.stmts())
+    # Decided on what the generator can yield and from where, not on how its branches are laid out:
+    #   char    rows of csv.reader(f, delimiter=<the configured character>)      default   rows of csv.reader(f)
+    #   regex   match.groups() of the configured pattern applied to each line
+    # and for each of them the first line is skipped exactly when has_header is set.
+    readers = [c for c in ifl.calls('reader') if dotted(c.func) == 'csv.reader']
+    kinds = {'char': [c for c in readers if any(k.arg == 'delimiter' for k in c.keywords)],
+             'default': [c for c in readers if not any(k.arg == 'delimiter' for k in c.keywords) and len(c.args) == 1]}
+    yields = [y for y in ast.walk(it.node) if isinstance(y, (ast.Yield, ast.YieldFrom))]
+    kinds['regex'] = [y for y in yields if y.value is not None and '.groups()' in src(y.value)]
+    tab = any(isinstance(n, (ast.If, ast.IfExp)) and "=='tab'" in src(n.test).replace(' ', '') and "'\\t'" in src(n) for n in ast.walk(it.node))
     ctx.check(tab, 'C05.R5', it, 'arm:tab', "'tab' is mapped to the tab character", "no mapping of delimiter 'tab' to '\\t'")
-    for nm, body in arms.items():
-        if not body:
+    # header skips
+    # a reader's first line is skipped under has_header: some next(<reader>) guarded by has_header is reached by *that* reader's definition
+    skipped_defs = set()
+    for c in ifl.calls('next'):
+        if c.args and isinstance(c.args[0], ast.Name) and ('has_header', True) in ifl.cfg.guard_literals(ifl.stmt_of(c)):
+            skipped_defs |= {d for d in ifl.cfg.defs_reaching(ifl.stmt_of(c), c.args[0].id) if d != 'param'}
+    regex_skip = any(isinstance(s_, ast.Continue) and any(t == 'has_header' and tr for t, tr in ifl.cfg.guard_literals(s_)) for s_ in ifl.cfg.stmts()) or \
+        (bool(kinds['regex']) and all(any('has_header' in t for t, _tr in ifl.cfg.guard_literals(ifl.stmt_of(y))) for y in kinds['regex']))
+    for nm in ('regex', 'char', 'default'):
+        if not kinds[nm]:
             ctx.fail('C05.R5', it, f'arm:{nm}', f'no {nm} arm in the delimiter dispatch', it.node)
             continue
-        text = ' '.join(src(x) for x in body)
-        hdr = 'has_header' in text
-        yields = any(isinstance(n, (ast.Yield, ast.YieldFrom)) for x in body for n in ast.walk(x))
-        ctx.check(hdr and yields, 'C05.R5', it, f'arm:{nm}', f'{nm} arm skips the header when configured and yields rows',
-                  f'{nm} arm ' + ('never skips the header line' if not hdr else 'yields nothing'), body[0])
+        if nm == 'regex':
+            hdr = regex_skip
+        else:
+            hdr = all(ifl.cfg.nid(ifl.stmt_of(c)) in skipped_defs for c in kinds[nm])
+        ctx.check(hdr and bool(yields), 'C05.R5', it, f'arm:{nm}', f'{nm} arm skips the header when configured and yields rows',
+                  f'{nm} arm ' + ('never skips the header line' if not hdr else 'yields nothing'), kinds[nm][0])
     # the delimiter and header flag come from the spec
     rc = [c3 for c3 in fl.calls('_iter_rows_with_delimiter')]
     ok = len(rc) == 1 and 'attr:format_spec.has_header' in fl.atoms(rc[0].args[2], rc[0]) and ('delimiter' in src(rc[0].args[1]))
@@ -321,7 +330,12 @@ def r7_amount(ctx: Ctx) -> None:
     ctx.check(euro <= seen_e, 'C05.R7', pa, 'convention:comma', "decimal comma: '.' and ' ' removed, ',' becomes '.'", f'decimal-comma arm performs {sorted(seen_e)}')
     ctx.check(us <= seen_u, 'C05.R7', pa, 'convention:dot', "decimal point: ',' removed", f'decimal-point arm performs {sorted(seen_u)}')
     # parentheses -> negative, applied to the result once
-    neg = [s_ for s_ in cfg.stmts() if isinstance(s_, ast.If) and 'startswith' in src(s_.test) and 'endswith' in src(s_.test) and "'('" in src(s_.test) and "')'" in src(s_.test)]
+    def paren_test(e) -> bool:
+        t = src(e)
+        return 'startswith' in t and 'endswith' in t and "'('" in t and "')'" in t
+    # the "cell is parenthesised" decision: an if on it, or a flag computed from it
+    neg = [s_ for s_ in cfg.stmts() if (isinstance(s_, ast.If) and paren_test(s_.test)) or
+           (isinstance(s_, ast.Assign) and any(isinstance(t_, ast.Name) and t_.id == 'negative' for t_ in s_.targets) and paren_test(s_.value))]
     rets = [r for r in cfg.stmts() if isinstance(r, ast.Return) and r.value is not None]
     # every returned value is -x when the cell was parenthesised and x otherwise, whether spelled `-r if negative else r` or `if negative: return -r` / `return r`
     arms = []            # (is negated, truth of `negative` under which it is returned; None = unconditional)
